@@ -66,6 +66,7 @@ type batchScn struct {
 	chkPositional, chkPerItem, chkLimit, chkStop, chkCancel, chkAction, chkWait bool
 	inFlow                                                                      bool          // run as the first node of a flow whose default edge leads to a witness
 	execDur                                                                     time.Duration // every exec takes this much virtual time
+	errItems                                                                    []int         // these items are handed out by prep as error Results (exec must still be called for them)
 }
 
 // itemState: written by the thread processing the item; read by the main
@@ -123,6 +124,14 @@ func (sc *batchScn) payloads() []any {
 }
 
 func (b *BR) index(v any) int {
+	if e, ok := v.(error); ok {
+		for i, pe := range prepItemErr {
+			if e == pe {
+				return i
+			}
+		}
+		return -1
+	}
 	switch x := v.(type) {
 	case int:
 		return x - 100
@@ -225,6 +234,9 @@ func (b *BR) run() {
 		r := make([]flyt.Result, sc.n)
 		for i, p := range b.payload {
 			r[i] = flyt.NewResult(p)
+			if contains(sc.errItems, i) {
+				r[i] = flyt.NewErrorResult(prepItemErr[i])
+			}
 		}
 		return r
 	}
@@ -273,7 +285,11 @@ func (b *BR) run() {
 		})
 	} else {
 		nb = nb.WithExecFunc(func(ctx context.Context, it flyt.Result) (flyt.Result, error) {
-			a := b.onExec(ctx, it.Value(), it.IsError())
+			var v any = it.Value()
+			if it.IsError() {
+				v = it.Error() // error items are identified by their error
+			}
+			a := b.onExec(ctx, v, it.IsError())
 			if a.err != nil {
 				return flyt.Result{}, a.err
 			}
@@ -328,6 +344,14 @@ func (b *BR) run() {
 
 type errResultMarker struct{ err error }
 
+var prepItemErr = func() []error {
+	var l []error
+	for i := 0; i < 12; i++ {
+		l = append(l, fmt.Errorf("prep-item-%d-is-an-error-result", i))
+	}
+	return l
+}()
+
 func (b *BR) onExec(ctx context.Context, v any, argIsErr bool) answer {
 	sc := b.sc
 	i := b.index(v)
@@ -347,8 +371,8 @@ func (b *BR) onExec(ctx context.Context, v any, argIsErr bool) answer {
 		b.maxIn.Set(in)
 	}
 	core.Logf("exec item %d attempt %d enter (in flight %d)", i, k, in)
-	if argIsErr {
-		core.Problem("exec of item %d received an error Result as its item", i)
+	if argIsErr != contains(sc.errItems, i) {
+		core.Problem("exec of item %d received IsError()=%v, prep produced IsError()=%v for that item", i, argIsErr, !argIsErr)
 	}
 	// ---- C08 upper bound
 	if sc.chkLimit {
@@ -468,6 +492,9 @@ func (b *BR) onFallback(p any, err error) (any, error) {
 	var v any = p
 	if r, ok := p.(flyt.Result); ok {
 		v = r.Value()
+		if r.IsError() {
+			v = r.Error()
+		}
 	}
 	i := b.index(v)
 	if i < 0 || i >= sc.n {
@@ -531,7 +558,11 @@ func (b *BR) onPost(sameStore bool, items, results []flyt.Result) (flyt.Action, 
 			core.Problem("post received %d results for %d items", len(results), len(items))
 		}
 		for i := 0; i < len(items) && i < want; i++ {
-			if items[i].IsError() || !sameValue(items[i].Value(), b.payload[i]) {
+			if contains(sc.errItems, i) {
+				if !items[i].IsError() || items[i].Error() != prepItemErr[i] {
+					core.Problem("post item %d lost its error state", i)
+				}
+			} else if items[i].IsError() || !sameValue(items[i].Value(), b.payload[i]) {
 				core.Problem("post item %d is %s, prep produced %s at that position", i, descVal(items[i].Value()), descVal(b.payload[i]))
 			}
 		}
